@@ -63,8 +63,12 @@ def get_hash_key(version_string):
     if dotted[-1:].isalpha():
         letter = dotted[-1]
         dotted = dotted[:-1]
-    # a component with a leading zero is compared without its trailing zeros
-    components = tuple(c.rstrip("0") if c.startswith("0") else c for c in dotted.split("."))
+    # a component with a leading zero is compared without its trailing zeros,
+    # any other one as an integer (any decimal digit counts)
+    components = tuple(
+        c.rstrip("0") if c.startswith("0") else "".join(str(int(d)) for d in c).lstrip("0")
+        for c in dotted.split(".")
+    )
     suffixes = tuple(
         (match.group(1), int("0" + match.group(2)))
         for match in map(suffix_regexp.match, suffixes)
